@@ -45,6 +45,10 @@ def gen_box(rng, d: int, cls: str | None = None) -> dict:
             return [-1e6, 1e6]
         if c == "offset":
             return [1e6, 1e6 + 1.0]
+        if c == "fullprec":
+            # bounds that use all 53 bits (0.1234567890123456...): not on any decimal grid a rounding / cache key could assume
+            lo = rng.uniform(-1.0, 1.0)
+            return [lo, lo + rng.uniform(0.5, 2.0)]
         raise ValueError(c)
 
     if cls == "mixed":
